@@ -9,7 +9,7 @@
 (* event) plus the spec's accumulators (node label counts, root labels,    *)
 (* reference grammar and lexicon).                                         *)
 (***************************************************************************)
-EXTENDS GrammarProps, Json, IOUtils
+EXTENDS GrammarFiles, Json, IOUtils
 Doc   == JsonDeserialize(IOEnv.TRACE_FILE)
 Cases == Doc.cases
 VARIABLES tid, l, gram, lex, ref, errs, done
@@ -63,8 +63,9 @@ TExtract ==
   /\ UNCHANGED <<tid, done>>
 TSetGram ==
   /\ IsEvent("setgram")
-  /\ gram' = GramOf(Case.events[l + 1].gram) /\ lex' = EmptyBag
-  /\ ref' = [Ref0 EXCEPT !.fromtrees = FALSE]
+  /\ gram' = GramOf(Case.events[l + 1].gram)
+  /\ lex' = IF "keeplex" \in DOMAIN Case.events[l + 1] THEN lex ELSE EmptyBag
+  /\ ref' = [ref EXCEPT !.fromtrees = FALSE]
   /\ UNCHANGED <<tid, errs, done>>
 TBinarize ==
   /\ IsEvent("binarize")
@@ -76,10 +77,70 @@ TBinarize ==
                C07(gram, OutOf(e.out), m) \cup
                (IF ref.fromtrees THEN C08(gram, OutOf(e.out), m, lex, ref.roots, ref.nodecnt) ELSE {})})
   /\ UNCHANGED <<tid, gram, lex, ref, done>>
+
+\* ---- grammar files (C09) ----
+SetOfSeq(s) == {s[i] : i \in 1..Len(s)}
+LexRuleBag(lx) == [g \in {[func |-> <<e[2], e[1]>>, lin |-> << << <<0, 0>> >> >>] : e \in DOMAIN lx} |->
+                     SumOver({e \in DOMAIN lx : g.func = <<e[2], e[1]>>}, LAMBDA e : lx[e])]
+WriteErrs(e) ==
+  LET G == SumVert(gram)
+      lig == e.lig = "T"
+      Gexp == IF lig THEN G (+) LexRuleBag(lex) ELSE G
+      words == SetOfSeq(e.words)
+      Syms == Symbols(DOMAIN Gexp)
+  IN
+  IF e.fmt = "lopar" THEN
+     F("C09.lopar.refuses_lcfrs", (e.res = "exc") <=> ~IsContextFree(gram)) \cup
+     (IF e.res = "ok" THEN
+        F("C09.lopar.gram", DecodeLoparGram(e.files.gram) = NormCFBag(G)) \cup
+        F("C09.lex.counts", LexWF(e.files.lex) /\ DecodeLex(e.files.lex) = lex) \cup
+        F("C09.lopar.start", DecodePairs(e.files.start) = StartSyms(G)) \cup
+        F("C09.lopar.oc", DecodePairs(e.files.oc) = OcBag(lex, SetOfSeq(e.caps), FALSE)) \cup
+        F("C09.lopar.OC", DecodePairs(e.files.OC) = OcBag(lex, SetOfSeq(e.caps), TRUE))
+      ELSE {})
+  ELSE IF e.res # "ok" THEN {"C09.raised." \o e.fmt}
+  ELSE IF e.fmt = "pmcfg" THEN
+     F("C09.pmcfg.wellformed", PmcfgWF(e.files.pmcfg)) \cup
+     (IF PmcfgWF(e.files.pmcfg) THEN
+        F("C09.pmcfg.decodes", DecodePMCFG(e.files.pmcfg) = Gexp) \cup
+        (IF lig THEN F("C09.lex_in_grammar",
+                       /\ LexFromGram(DecodePMCFG(e.files.pmcfg), words) = lex
+                       /\ WithoutLex(DecodePMCFG(e.files.pmcfg), words) = G)
+         ELSE {})
+      ELSE {}) \cup
+     (IF lig THEN {} ELSE F("C09.lex.counts", LexWF(e.files.lex) /\ DecodeLex(e.files.lex) = lex))
+  ELSE \* rcg
+     F("C09.rcg.wellformed", RcgWF(e.files.rcg) /\ \A i \in Idx(e.files.rcg) : RcgVarsOK(e.files.rcg[i])) \cup
+     (IF RcgWF(e.files.rcg) /\ \A i \in Idx(e.files.rcg) : RcgVarsOK(e.files.rcg[i])
+      THEN F("C09.rcg.decodes", DecodeRCG(Syms, e.files.rcg) = Gexp) ELSE {}) \cup
+     (IF lig THEN {} ELSE F("C09.lex.counts", LexWF(e.files.lex) /\ DecodeLex(e.files.lex) = lex))
+TWrite == /\ IsEvent("write")
+          /\ errs' = errs \cup {<<c, l + 1>> : c \in WriteErrs(Case.events[l + 1])}
+          /\ UNCHANGED <<tid, gram, lex, ref, done>>
+TReadRcg ==
+  /\ IsEvent("read_rcg")
+  /\ LET e == Case.events[l + 1] IN
+     errs' = errs \cup {<<c, l + 1>> : c \in
+       IF e.res # "ok" THEN {"C09.rcg.reader_raised"}
+       ELSE F("C09.rcg.reader_roundtrip",
+              /\ ProjBag(GramOf(e.gram), LAMBDA r : [func |-> r.func, lin |-> r.lin]) = SumVert(gram)
+              /\ LexOf(e.lex) = lex)}
+  /\ UNCHANGED <<tid, gram, lex, ref, done>>
+TCli ==
+  /\ IsEvent("cli")
+  /\ LET e == Case.events[l + 1] IN
+     errs' = errs \cup {<<c, l + 1>> : c \in
+       F("C09.cli.exit0", e.rc = 0) \cup
+       (IF e.rc = 0 THEN
+          F(IF e.src = "rcg" THEN "C09.cli_grammar_input_not_empty" ELSE "C09.cli_extract",
+            PmcfgWF(e.files.pmcfg) /\ DecodePMCFG(e.files.pmcfg) = SumVert(gram)) \cup
+          F("C09.cli.lex", LexWF(e.files.lex) /\ DecodeLex(e.files.lex) = lex)
+        ELSE {})}
+  /\ UNCHANGED <<tid, gram, lex, ref, done>>
 TDone == /\ ~done /\ l = Len(Case.events) /\ done' = TRUE
          /\ PrintT("VERDICT " \o ToJson(
               [id |-> Case.id, steps |-> l, failed |-> errs, tags |-> {Case.tags[i] : i \in 1..Len(Case.tags)},
                nontrivial |-> (\E r \in DOMAIN gram : gram[r] > 1 \/ Len(r.lin) > 1 \/ RankOf(r.func) > 2)]))
          /\ UNCHANGED <<tid, l, gram, lex, ref, errs>>
-TNext == TExtract \/ TSetGram \/ TBinarize \/ TDone
+TNext == TExtract \/ TSetGram \/ TBinarize \/ TWrite \/ TReadRcg \/ TCli \/ TDone
 =============================================================================
